@@ -1,9 +1,8 @@
 /-
-CompileVarDecl — `var x T = e` (C14 target 1a).  codegen.go:738-772 allocates the new local BEFORE it walks the
-initialiser, Go opens the scope of `x` AFTER the ValueSpec.  The two agree exactly when `x` does not occur in `e`
-(`mentions x e = false`): then the statement compiles to the same code and the same compile-time state as `x := e`
-(`compS_varDecl_define`) and has the same Go semantics (`exec_varDecl_define`).  When `x` does occur in `e` the
-compiled code reads the fresh (Null, or stale from an earlier loop iteration) slot: `C14.varDecl_shadow_witness`.
+CompileVarDecl — `var x T = e` (C14 target 1a).  Go opens the scope of `x` AFTER the ValueSpec; the compiler allocates
+the local when it stores the value, after the initialiser has been walked (it used to allocate it before: the former
+known finding var-decl-shadow-self, repaired in /repo).  The statement compiles to the same code and the same
+compile-time state as `x := e` (`compS_varDecl_define`) and has the same Go semantics (`exec_varDecl_define`).
 -/
 import NeoModel.Proofs.CompileStmt
 namespace NeoModel.CompileProofs
@@ -72,19 +71,11 @@ theorem lookupSlot_newLocal_ne (st : St) (x y : String) (h : y ≠ x) :
   unfold St.newLocal
   cases hs : st.scopes <;> simp [lookupSlot, List.lookup, hb]
 
-/-- `var x T = e` compiles exactly like `x := e` when `x` does not occur in `e`: the early allocation of the local
-    (codegen.go:738-764) is then invisible. -/
-theorem compS_varDecl_define (cx : Ctx) (lp : LoopCtx) (x : String) (b : Bool) (e : Expr) (st : St)
-    (h : mentions x e = false) : compS cx lp (.varDecl x b (some e)) st = compS cx lp (.define x e) st := by
-  have hc : compE cx (st.newLocal x).scopes e .val st.nl = compE cx st.scopes e .val st.nl := by
-    apply compE_congr
-    intro y hy
-    apply lookupSlot_newLocal_ne
-    intro hxy; subst hxy; rw [h] at hy; cases hy
-  have hnl : (st.newLocal x).nl = st.nl := by unfold St.newLocal; cases st.scopes <;> rfl
-  simp only [compS, hnl, hc]
-  unfold St.newLocal
-  cases hs : st.scopes <;> simp
+/-- `var x T = e` compiles exactly like `x := e`: the local is allocated after the initialiser has been walked
+    (codegen.go GenDecl), as Go's scoping demands — also when `x` occurs in `e` (it is the outer `x` then). -/
+theorem compS_varDecl_define (cx : Ctx) (lp : LoopCtx) (x : String) (b : Bool) (e : Expr) (st : St) :
+    compS cx lp (.varDecl x b (some e)) st = compS cx lp (.define x e) st := by
+  simp only [compS]
 
 theorem exec_varDecl_define (fuel : Nat) (P : Prog) (env : Env) (x : String) (b : Bool) (e : Expr) :
     exec fuel P env (.varDecl x b (some e)) = exec fuel P env (.define x e) := by
